@@ -194,8 +194,8 @@ func NuGetRange(r *rand.Rand) string {
 			p[i] = sn(r)
 		}
 		s := strings.Join(p, ".")
-		if r.Intn(5) == 0 {
-			s += "-" + Pick(r, "alpha", "beta.1", "rc", "0")
+		if r.Intn(4) == 0 {
+			s += "-" + Pick(r, "alpha", "beta.1", "rc", "0", "RC", "Beta", "rc.Z", "ALPHA.1")
 		}
 		return s
 	}
@@ -203,7 +203,7 @@ func NuGetRange(r *rand.Rand) string {
 	case k < 3:
 		return v()
 	case k < 4:
-		return Pick(r, "*", sn(r)+".*", sn(r)+"."+sn(r)+".*")
+		return Pick(r, "*", sn(r)+".*", sn(r)+"."+sn(r)+".*", sn(r)+"."+sn(r)+"."+sn(r)+".*", sn(r)+"."+sn(r)+"."+sn(r)+"-*")
 	case k < 5:
 		return "[" + v() + "]"
 	}
